@@ -514,8 +514,12 @@ func init() {
 			for _, pf := range prefixes {
 				pls = append(pls, pl{pf, ""})
 			}
+			segs := []string{"j..doe", "a%41", "..a", "a.", "a#b?c"}
 			if thorough(r) {
-				for _, seg := range c05Names {
+				segs = c05Names
+			}
+			{
+				for _, seg := range segs {
 					for _, pf := range c12Prefixes(1) {
 						pls = append(pls, pl{pf, seg})
 					}
